@@ -155,7 +155,7 @@ func Run(tier string) int {
 	res.Sample(map[string]any{"history": "govEvmParams>...>evmBankQuery", "restart": "after every block boundary k = 0..7, modes same-db / copied-db / twice"})
 	return engine.Finish(res, engine.Meta{
 		Property: Prop, Tier: tier, Level: "model_checking", Start: start,
-		Rule: "histories: every base template (incl. 3 state-shape templates) alone, a third (thorough: all) of the ordered pairs plus every template followed by itself, every governance flow (EVM params incl. active precompiles and EnableCreate, fee-market params with a base-fee activation height, ERC20 params, token-pair conversion toggle) alone and followed by every base template after it took effect, and 7 life-cycle chains (switch off, use, switch on, use; two day boundaries; sub-millisecond block times); for EVERY block boundary of every history one restart replica; compared: Info() height and app hash, 27 gRPC queries after every commit, every later DeliverTx/EndBlock/BeginBlock response and app hash; transitions = restart replicas run",
+		Rule: "histories: every base template (incl. 3 state-shape templates) alone, a third (thorough: all) of the ordered pairs plus every template followed by itself, every governance flow (EVM params incl. active precompiles and EnableCreate, fee-market params with a base-fee activation height, ERC20 params, token-pair conversion toggle) alone and followed by every base template after it took effect, and 10 life-cycle chains (switch off, use, switch on, use; two day boundaries; sub-millisecond block times; the same block hash read before and after its header left the 3-entry history; the day epoch behind the clock); exact gas accounting (MinGasMultiplier 0); for EVERY block boundary of every history one restart replica; compared: Info() height and app hash, 27 gRPC queries and 8 EVM-executing queries after every commit and right after the restart, every later DeliverTx/EndBlock/BeginBlock response and app hash; transitions = restart replicas run",
 		Assumptions: []string{
 			"the database is a MemDB kept across the restart (or copied key by key); torn writes inside a multistore commit are not modelled (crash points are block boundaries)",
 			"erc20.RegisterERC20Extensions / AddEVMExtensions have no caller reachable from block histories at this commit",
